@@ -16,6 +16,9 @@ Ties, both kinds:
  (C2) end-to-end: GreensFunction::operator() (stand-alone object, container, Matsubara numbers) vs the full-space
      specification PV.EDSpec.gf (oracle driver_ed), tolerance 1e-11*scale + documented truncation bound (PV.TruncSpec,
      full space: dropped residues and merged poles; partial sums dropped as negligible from the model's event log).
+     Every tier includes the deterministic low-temperature family LOWTEMP (beta*|E_ground| from 300 to 4700, thorough: 90000,
+     ground energy of either sign): there exp(-beta*E) is outside binary64, so the library's weights must be taken relative
+     to the ground energy; the references (EDSpec.weights, PV.TruncSpec) are.  beta*E_ground of each is in the evidence.
 """
 import json
 import re
@@ -334,7 +337,9 @@ def run(chk):
             chk.tie_broken("asan build", ex.what)
     chk.rule = ("scenario families of tools/scen.py (Hubbard atom, two-site incl. spin-flip hopping, Anderson, free degenerate, atomic limit, "
                 "Kanamori, exchange; pairing and spinless with symmetries ignored), default and ignored symmetries, real build always, "
-                "complex build with complex hoppings and beta in {0.5..200} in the thorough tier; per scenario all diagonal and (thorough: all, "
+                "complex build with complex hoppings and beta in {0.5..200} in the thorough tier; in every tier five fixed low-temperature "
+                "scenarios (Hubbard atoms and dimers at beta = 100, 400, 1000 with beta*E_ground = -300, -800, -4739, +1200, +2526; thorough: "
+                "five more incl. symmetries ignored, complex hopping, beta = 10000); per scenario all diagonal and (thorough: all, "
                 "quick: 4) off-diagonal (i,j); z at Matsubara numbers from -20..20 and three off-axis points; stand-alone vs container; "
                 "a case = (scenario, i, j); non-trivial = component not identically vanishing (value cases) / at least one matched "
                 "position (term-list cases); distinct = distinct canonical input")
